@@ -564,3 +564,270 @@ Proof.
     repeat split; intros; try (left; reflexivity); try (right; assumption);
     try assumption; try reflexivity; try lia.
 Qed.
+
+(* ------------------------------------------------------------------ the two enforcement points,
+   and what follows the response head *)
+Definition side_limit_s (c : option N) (sk : server_kind) : option N :=
+  match sk with STonic scfg => effective c scfg | SStub => None end.
+Definition side_limit_c (c : option N) (ck : client_kind) : option N :=
+  match ck with CChannel ccfg => effective c ccfg | CRaw => None end.
+(* the shortest deadline some side enforces: a raw client and a stub server enforce none *)
+Definition enforced_deadline (s : tsrc) (ck : client_kind) (sk : server_kind) : option N :=
+  effective (side_limit_s (caller_deadline s) sk) (side_limit_c (caller_deadline s) ck).
+Definition end_tick (sh : shape) : N := sh_head sh + sh_n sh * sh_gap sh.
+
+(* known-findings class (F-C09b, F-C09c): the response head is produced no later than the
+   deadline's tick, and the response ends after it *)
+Definition KnownC09_head_in_time (s : tsrc) (ck : client_kind) (sk : server_kind) (sh : shape) : Prop :=
+  exists D, enforced_deadline s ck sk = Some D /\
+    sh_head sh <= sleep_tick D /\ sleep_tick D < end_tick sh.
+
+Lemma is_timeout_not_none st : is_timeout_status st -> st <> None.
+Proof. intros (x & -> & _). discriminate. Qed.
+
+(* every call, inside or outside the class: the deadline is raced against the response HEAD,
+   strictly decided whenever the ticks differ; once the head is in, everything is delivered and
+   nothing is cut; a call cut at the head delivers nothing *)
+Theorem call_head_race s ck sk sh : (forall d, s = SetTimeout d -> d < FMT_LIMIT) ->
+  exists o, call s ck sk sh = Ok o /\
+    match enforced_deadline s ck sk with
+    | None => co_head o = None /\ co_head_tick o = sh_head sh
+    | Some D =>
+        (sh_head sh < sleep_tick D -> co_head o = None /\ co_head_tick o = sh_head sh) /\
+        (sleep_tick D < sh_head sh -> is_timeout_status (co_head o) /\ co_head_tick o = sleep_tick D) /\
+        (sh_head sh = sleep_tick D ->
+           (co_head o = None \/ is_timeout_status (co_head o)) /\ co_head_tick o = sh_head sh)
+    end /\
+    (co_head o = None ->
+       co_final o = None /\ co_msgs o = unary_msgs sh /\ co_end_tick o = end_tick sh /\
+       co_produced o = sh_n sh /\ co_fate o = Done (sh_head sh)) /\
+    (co_head o <> None ->
+       co_final o = co_head o /\ co_msgs o = 0 /\ co_end_tick o = co_head_tick o /\
+       (forall t, co_fate o = Done t -> t = co_head_tick o)).
+Proof.
+  intros Hs. destruct (request_headers_spec s Hs) as (h & Eh & Ec).
+  destruct wire_timeout_status as (ws & Ew & Wc & Wm & _).
+  assert (Tw : is_timeout_status (Some ws)) by (exists ws; auto).
+  assert (Tl : is_timeout_status (Some timeout_status)) by (exists timeout_status; repeat split).
+  unfold call, server_head, enforced_deadline, side_limit_s, side_limit_c, end_tick.
+  rewrite Eh.
+  set (c := caller_deadline s) in *.
+  assert (HE : forall (A : Type) (a b : A) (r : fut_result),
+    match (match r with Completed => Ok None | TimedOut => over_the_wire timeout_status end) with
+    | Panic => a | Ok x => b end = b) by (intros A a b []; [reflexivity|now rewrite Ew]).
+  destruct sk as [scfg|], ck as [ccfg|];
+    rewrite ?layer_limit_spec, ?Ec;
+    destruct c as [a|]; try destruct scfg as [e|]; try destruct ccfg as [b|]; cbn [effective];
+    unfold race, fire_of, handler_ready, at_tick, tick_of, LATE, PH, fate_after_cancel;
+    repeat rewrite sleep_tick_min;
+    repeat match goal with
+           | |- context [sleep_tick ?x] => generalize (sleep_tick x); intro
+           end;
+    destruct (sh_head sh =? 0) eqn:L0;
+    repeat match goal with
+           | |- context [if ?x <=? ?y then _ else _] => destruct (x <=? y) eqn:?
+           | |- context [if ?x =? ?y then _ else _] => destruct (x =? y) eqn:?
+           end;
+    rewrite ?Ew;
+    (eexists; split; [reflexivity|]);
+    cbn [co_head co_head_tick co_msgs co_final co_end_tick co_fate co_produced];
+    repeat split; intros;
+    try match goal with H : Some _ = None |- _ => discriminate H end;
+    try match goal with H : None <> None |- _ => congruence end;
+    try match goal with H : Done _ = Done _ |- _ => injection H as <- end;
+    try match goal with H : NotStarted = Done _ |- _ => discriminate H end;
+    try match goal with H : Dropped _ = Done _ |- _ => discriminate H end;
+    try (left; reflexivity); try (right; assumption);
+    try assumption; try reflexivity; try lia.
+Qed.
+
+(* outside the known class the property's reading holds for the whole call: unaffected when it
+   ends in an earlier tick than the deadline's, cut off with CANCELLED "Timeout expired" in the
+   deadline's tick (nothing delivered) when it would end later *)
+Theorem call_outside_class s ck sk sh : (forall d, s = SetTimeout d -> d < FMT_LIMIT) ->
+  ~ KnownC09_head_in_time s ck sk sh ->
+  exists o, call s ck sk sh = Ok o /\
+    match enforced_deadline s ck sk with
+    | None => co_final o = None /\ co_msgs o = unary_msgs sh /\ co_end_tick o = end_tick sh
+    | Some D =>
+        (end_tick sh < sleep_tick D ->
+           co_final o = None /\ co_msgs o = unary_msgs sh /\ co_end_tick o = end_tick sh) /\
+        (sleep_tick D < end_tick sh ->
+           is_timeout_status (co_final o) /\ co_msgs o = 0 /\ co_end_tick o = sleep_tick D /\
+           (forall t, co_fate o = Done t -> t = sleep_tick D)) /\
+        (end_tick sh = sleep_tick D ->
+           (co_final o = None \/ is_timeout_status (co_final o)) /\ co_end_tick o = end_tick sh)
+    end.
+Proof.
+  intros Hs Hk. destruct (call_head_race s ck sk sh Hs) as (o & Eo & Hh & Hok & Hcut).
+  exists o. split; [exact Eo|].
+  assert (HE : sh_head sh <= end_tick sh) by (unfold end_tick; lia).
+  destruct (enforced_deadline s ck sk) as [D|] eqn:ED.
+  - destruct Hh as (H1 & H2 & H3).
+    assert (Hlate : sleep_tick D < end_tick sh -> sleep_tick D < sh_head sh).
+    { intros H. destruct (N.lt_ge_cases (sleep_tick D) (sh_head sh)) as [L|L]; [exact L|].
+      exfalso. apply Hk. exists D. exact (conj ED (conj L H)). }
+    repeat split.
+    + apply Hok, H1. lia.
+    + apply Hok, H1. lia.
+    + apply Hok, H1. lia.
+    + pose proof (Hlate H) as L.
+      destruct (H2 L) as [T Ht]. pose proof (is_timeout_not_none _ T) as Nn.
+      destruct (Hcut Nn) as (-> & _). exact T.
+    + pose proof (Hlate H) as L.
+      destruct (H2 L) as [T Ht]. apply Hcut. now apply is_timeout_not_none.
+    + pose proof (Hlate H) as L.
+      destruct (H2 L) as [T Ht]. pose proof (is_timeout_not_none _ T) as Nn.
+      destruct (Hcut Nn) as (_ & _ & -> & _). exact Ht.
+    + intros t Ft.
+      pose proof (Hlate H) as L.
+      destruct (H2 L) as [T Ht]. pose proof (is_timeout_not_none _ T) as Nn.
+      destruct (Hcut Nn) as (_ & _ & _ & Hf). rewrite (Hf t Ft). exact Ht.
+    + destruct (N.lt_ge_cases (sh_head sh) (sleep_tick D)) as [L|L].
+      * left. apply Hok, H1, L.
+      * assert (Eq : sh_head sh = sleep_tick D) by lia.
+        destruct (H3 Eq) as [[N0|T] _]; [left; now apply Hok|].
+        right. pose proof (is_timeout_not_none _ T) as Nn.
+        destruct (Hcut Nn) as (-> & _). exact T.
+    + destruct (N.lt_ge_cases (sh_head sh) (sleep_tick D)) as [L|L].
+      * apply Hok, H1, L.
+      * assert (Eq : sh_head sh = sleep_tick D) by lia.
+        destruct (H3 Eq) as [[N0|T] Ht]; [now apply Hok|].
+        pose proof (is_timeout_not_none _ T) as Nn.
+        destruct (Hcut Nn) as (_ & _ & -> & _). lia.
+  - destruct Hh as [H0 _]. repeat split; now apply Hok.
+Qed.
+
+(* a response that ends with its head is never in the class: every unary call answered by a
+   tonic server (its head is produced after the handler, message and trailers follow at once) *)
+Lemma head_is_end_outside_class s ck sk sh :
+  sh_n sh * sh_gap sh = 0 -> ~ KnownC09_head_in_time s ck sk sh.
+Proof. intros Z (D & _ & H1 & H2). unfold end_tick in H2. lia. Qed.
+
+(* inside the class the call is NOT cut off (F-C09b): Server::timeout 5 ms, head at 2 ms, then
+   100 messages one second apart, a client that enforces nothing: everything is delivered and the
+   call ends OK at 100.002 s.  Same with all three deadlines set on the tonic<->tonic path. *)
+Theorem stream_overrun_refuted :
+  exists s ck sk sh o,
+    KnownC09_head_in_time s ck sk sh /\ call s ck sk sh = Ok o /\
+    co_final o = None /\ co_msgs o = 100 /\ co_end_tick o = 100002 /\
+    enforced_deadline s ck sk = Some 5000000.
+Proof.
+  exists NoDeadline, CRaw, (STonic (Some 5000000)), (mkShape true 2 100 1000).
+  eexists. split; [|split; [vm_compute; reflexivity|]].
+  - exists 5000000. repeat split; vm_compute; congruence.
+  - repeat split.
+Qed.
+Theorem stream_overrun_refuted_both_sides :
+  exists o,
+    KnownC09_head_in_time (SetTimeout 5000000) (CChannel (Some 5000000)) (STonic (Some 5000000))
+                          (mkShape true 2 100 1000) /\
+    call (SetTimeout 5000000) (CChannel (Some 5000000)) (STonic (Some 5000000))
+         (mkShape true 2 100 1000) = Ok o /\
+    co_final o = None /\ co_msgs o = 100 /\ co_end_tick o = 100002.
+Proof.
+  eexists. split; [|split; [vm_compute; reflexivity|]].
+  - exists 5000000. repeat split; vm_compute; congruence.
+  - repeat split.
+Qed.
+(* F-C09c: a unary call through the Channel (Endpoint::timeout 5 ms) to a peer that sends its
+   head at 2 ms and the message at 12 ms is not cut off either *)
+Theorem late_body_overrun_refuted :
+  exists o,
+    KnownC09_head_in_time NoDeadline (CChannel (Some 5000000)) SStub (mkShape false 2 1 10) /\
+    call NoDeadline (CChannel (Some 5000000)) SStub (mkShape false 2 1 10) = Ok o /\
+    co_final o = None /\ co_msgs o = 1 /\ co_end_tick o = 12.
+Proof.
+  eexists. split; [|split; [vm_compute; reflexivity|]].
+  - exists 5000000. repeat split; vm_compute; congruence.
+  - repeat split.
+Qed.
+
+(* each enforcement point on its own, exactly (ties included) *)
+Theorem server_only_spec s scfg sh : (forall d, s = SetTimeout d -> d < FMT_LIMIT) ->
+  exists o, call s CRaw (STonic scfg) sh = Ok o /\
+    match effective (caller_deadline s) scfg with
+    | None => co_head o = None
+    | Some D =>
+        (co_head o = None <-> sh_head sh <= sleep_tick D /\ 0 < sleep_tick D) /\
+        (co_head o <> None ->
+           is_timeout_status (co_head o) /\ co_head_tick o = sleep_tick D /\
+           co_fate o = if sleep_tick D =? 0 then NotStarted else Dropped (sleep_tick D))
+    end.
+Proof.
+  intros Hs. destruct (request_headers_spec s Hs) as (h & Eh & Ec).
+  destruct wire_timeout_status as (ws & Ew & Wc & Wm & _).
+  assert (Tw : is_timeout_status (Some ws)) by (exists ws; auto).
+  unfold call, server_head. rewrite Eh, layer_limit_spec, Ec.
+  destruct (effective (caller_deadline s) scfg) as [D|].
+  - unfold race, fire_of, handler_ready, at_tick, tick_of, PH.
+    generalize (sleep_tick D); intro tD.
+    destruct (sh_head sh =? 0) eqn:L0;
+      repeat match goal with
+             | |- context [if ?x <=? ?y then _ else _] => destruct (x <=? y) eqn:?
+             | |- context [if ?x =? ?y then _ else _] => destruct (x =? y) eqn:?
+             end;
+      rewrite ?Ew; (eexists; split; [reflexivity|]);
+      cbn [co_head co_head_tick co_fate]; repeat split; intros;
+      try discriminate; try congruence; try assumption; try lia;
+      try (f_equal; lia).
+  - unfold race, fire_of. eexists. split; [reflexivity|]. reflexivity.
+Qed.
+
+Theorem client_only_spec s ccfg sh : (forall d, s = SetTimeout d -> d < FMT_LIMIT) ->
+  exists o, call s (CChannel ccfg) SStub sh = Ok o /\
+    match effective (caller_deadline s) ccfg with
+    | None => co_head o = None
+    | Some D =>
+        (co_head o = None <-> sh_head sh < sleep_tick D \/ sh_head sh = 0) /\
+        (co_head o <> None ->
+           is_timeout_status (co_head o) /\ co_head_tick o = sleep_tick D /\
+           co_fate o = if sh_head sh =? sleep_tick D then Done (sh_head sh) else Dropped (sleep_tick D))
+    end.
+Proof.
+  intros Hs. destruct (request_headers_spec s Hs) as (h & Eh & Ec).
+  assert (Tl : is_timeout_status (Some timeout_status)) by (exists timeout_status; repeat split).
+  unfold call, server_head. rewrite Eh, layer_limit_spec, Ec.
+  destruct (effective (caller_deadline s) ccfg) as [D|].
+  - unfold race, fire_of, handler_ready, at_tick, tick_of, LATE, PH, fate_after_cancel.
+    generalize (sleep_tick D); intro tD.
+    destruct (sh_head sh =? 0) eqn:L0;
+      repeat match goal with
+             | |- context [if ?x <=? ?y then _ else _] => destruct (x <=? y) eqn:?
+             | |- context [if ?x =? ?y then _ else _] => destruct (x =? y) eqn:?
+             end;
+      (eexists; split; [reflexivity|]);
+      cbn [co_head co_head_tick co_fate]; repeat split; intros;
+      try discriminate; try congruence; try assumption; try lia;
+      try (f_equal; lia).
+  - unfold race, fire_of. eexists. split; [reflexivity|]. reflexivity.
+Qed.
+
+
+(* the unary tonic<->tonic call of [run] is the general [call] on the shape whose head is its end *)
+Lemma run_is_call s ccfg scfg lat :
+  run s ccfg scfg lat =
+  match call s (CChannel ccfg) (STonic scfg) (mkShape false lat 1 0) with
+  | Ok o => Ok (co_final o, co_end_tick o)
+  | Panic => Panic
+  end.
+Proof.
+  unfold run, call, server_head. destruct (request_headers s) as [h|]; [|reflexivity].
+  cbn [sh_head sh_n sh_gap].
+  destruct (layer_limit h scfg) as [sl|]; [|reflexivity].
+  destruct (layer_limit h ccfg) as [cl|].
+  2: { destruct (race (at_tick 0 0) (fire_of sl) (handler_ready lat)) as [[|] f]; cbn;
+       try reflexivity; destruct (over_the_wire timeout_status); reflexivity. }
+  destruct (race (at_tick 0 0) (fire_of sl) (handler_ready lat)) as [rs fs] eqn:R1.
+  destruct (race (at_tick 0 LATE) (fire_of cl) (fs + 1)) as [rc fc] eqn:R2.
+  destruct rs, rc; cbn [co_final co_end_tick]; try reflexivity.
+  - (* both completed: end tick *)
+    assert (F1 : fs = N.max (at_tick 0 0) (handler_ready lat)).
+    { unfold race in R1. destruct (fire_of sl) as [f|];
+        [destruct (handler_ready lat <=? N.max (at_tick 0 0) f)|]; inversion R1; reflexivity. }
+    assert (F2 : fc = N.max (at_tick 0 LATE) (fs + 1)).
+    { unfold race in R2. destruct (fire_of cl) as [f|];
+        [destruct (fs + 1 <=? N.max (at_tick 0 LATE) f)|]; inversion R2; reflexivity. }
+    f_equal. f_equal. subst fs fc.
+    unfold handler_ready, at_tick, LATE, tick_of, PH. destruct (lat =? 0) eqn:L0; lia.
+Qed.
